@@ -1,4 +1,5 @@
 """C02 — a sat answer is never given for an unsatisfiable assertion set."""
+import random
 import answercheck
 
 META = dict(
@@ -236,9 +237,22 @@ def cnf_tie(ctx, n):
                            "check %d: %s is not valid (%s): %s" % (q[0], kind, v, q[3][:200]), dict(script=text, options=list(opts), formula=q[2][:2000]))
 
 
-def directed(ctx, scripts, tag):
+def bool_uf_scripts(rng, n):
+    """Uninterpreted symbols over Bool arguments; some Booleans occur only inside such applications, so nothing but the
+    theory solver sees them (the Boolean domain has two elements: pigeonhole conflicts)."""
+    import scriptgen
+    out = []
+    for i in range(n):
+        r = random.Random(rng.randint(0, 2**40))
+        lg = r.choice(["QF_UF", "QF_UF", "QF_UFLIA", "QF_UFLRA"])
+        t, meta = scriptgen.gen_script(r, logic=lg, incremental=r.random() < 0.3, force_bargs=True, queries=("model",), nassert=r.randint(2, 5))
+        out.append((t, lg))
+    return out
+
+
+def directed(ctx, scripts, tag, cfg="default"):
     import solvercheck as sc
-    jobs = [(t, "default", [], None, 10, True, False, lg) for t, lg in scripts]
+    jobs = [(t, cfg, answercheck.CONFIGS[cfg], None, 10, True, False, lg) for t, lg in scripts]
     for (t, lg), (rc, res, out, err, tt, judged) in zip(scripts, answercheck.run_jobs(jobs)):
         ans = answercheck.answers_of(t, res, out) if rc in (0, 1) else None
         if not ans:
@@ -249,7 +263,7 @@ def directed(ctx, scripts, tag):
             ctx.case(key=(t, k), nontrivial=True, kind="%s:%s:%s:%s" % (tag, lg, a, v[0] if v else "-"), sample=dict(script=t, check_index=k, answer=a))
             if a == "sat" and v and v[0] == "refuted-oracles":
                 A = sc.active_assertions(frames)
-                ctx.violation("wrong-sat:refuted-oracles:%s:%s" % (answercheck.signature_tail(lg, "default", A, "(push" in t), tag),
+                ctx.violation("wrong-sat:refuted-oracles:%s:%s" % (answercheck.signature_tail(lg, cfg, A, "(push" in t), tag),
                               "answered sat (own model rejected by the verified evaluator: %s) while z3 and cvc5 say unsat (ORACLE-ONLY), family %s" % (v[1], tag),
                               dict(script=t, check_index=k))
 
@@ -259,6 +273,9 @@ def run(ctx):
     directed(ctx, dl_graph_scripts(ctx.rng, 60 if ctx.quick else 1500), "dl-graph")
     directed(ctx, dl_detour_scripts(ctx.rng, 240 if ctx.quick else 5000), "dl-detour")
     directed(ctx, lattice_scripts(ctx.rng, 80 if ctx.quick else 2000), "lattice")
+    bu = bool_uf_scripts(ctx.rng, 120 if ctx.quick else 3000)
+    directed(ctx, bu, "bool-uf")
+    directed(ctx, [(t, lg) for t, lg in bu if "(push" not in t and t.count("(check-sat)") == 1], "bool-uf", cfg="non-incremental")
     cnf_tie(ctx, 90 if ctx.quick else 2500)
     answercheck.run_corpus(ctx, "C02", judge_sat=True, judge_unsat=False)
     for text, logic, c in dl_boundary_scripts(ctx.rng, 40 if ctx.quick else 600):
